@@ -93,7 +93,7 @@ func vrfFit(n, pad int, limit int64) (int, int) {
 // ---------------------------------------------------------------------------------------
 // server role
 
-var vrfSrvTaints = []string{"body-closed", "handler-returned", "handler-panicked", "client-rst", "beyond-content-length", "after-end-stream", "after-trailers", "short-body"}
+var vrfSrvTaints = []string{"body-closed", "handler-returned", "handler-panicked", "client-rst", "beyond-content-length", "after-end-stream", "after-trailers", "short-body", "stream-window-exceeded"}
 
 func vrfC10Server(r *verifrt.R, c *verifrt.Case) {
 	rng := c.Rng
@@ -279,12 +279,19 @@ func vrfC10ServerScript(h *vrfSrv, rng *rand.Rand, d *vrfC10Desc) {
 				if st.cl < 0 || st.dataSent > st.cl || (t == "short-body" && st.dataSent >= st.cl) {
 					continue
 				}
+			case "stream-window-exceeded":
+				// one frame above the stream window but inside the connection window: the server
+				// answers with a stream error, the connection (and its accounting) goes on
+				conn, sw, mf := h.view(st.id)
+				if sw+1 > min(conn, mf) || (st.cl >= 0 && st.dataSent+sw+1 > st.cl) {
+					continue
+				}
 			}
 			cands = append(cands, t)
 		}
 		t := cands[rng.IntN(len(cands))]
 		// most taints are more interesting with unread data buffered
-		if rng.IntN(3) != 0 && t != "beyond-content-length" && t != "short-body" {
+		if rng.IntN(3) != 0 && t != "beyond-content-length" && t != "short-body" && t != "stream-window-exceeded" {
 			sendData(st, 1+rng.IntN(2), false)
 		}
 		concurrentRead := rng.IntN(3) == 0
@@ -316,6 +323,19 @@ func vrfC10ServerScript(h *vrfSrv, rng *rand.Rand, d *vrfC10Desc) {
 			h.data(st, n, -1, false)
 			d.paths[t] = true
 			d.note("DATA s=%d data=%d (crossing content-length %d)", st.id, n, st.cl)
+		case "stream-window-exceeded":
+			conn, sw, mf := h.view(st.id)
+			n := sw + 1
+			if extra := min(conn, mf) - n; extra > 0 && rng.IntN(2) == 0 {
+				n += rng.Int64N(min(extra, 3000) + 1)
+			}
+			if st.cl >= 0 && st.dataSent+n > st.cl {
+				n = sw + 1
+			}
+			st.taint = t
+			h.data(st, int(n), -1, false)
+			d.paths[t] = true
+			d.note("DATA s=%d data=%d (stream window %d, connection window %d)", st.id, n, sw, conn)
 		case "after-end-stream":
 			h.data(st, 0, -1, true)
 		case "after-trailers":
@@ -576,6 +596,7 @@ func vrfC10ClientScript(h *vrfCli, rng *rand.Rand, d *vrfC10Desc) {
 		return
 	}
 	goneAway := false
+	late := false
 	live := func() (clean, tainted, all []*vrfReq) {
 		for _, rq := range h.reqs {
 			if rq.finished || rq.id == 0 {
@@ -691,20 +712,28 @@ func vrfC10ClientScript(h *vrfCli, rng *rand.Rand, d *vrfC10Desc) {
 			return "read-all"
 		}
 	}
+	force := ""
 	applyTaint := func(rq *vrfReq) string {
 		var cands []string
 		for _, t := range vrfCliTaints {
+			if force != "" && t != force {
+				continue
+			}
 			switch t {
 			case "beyond-content-length", "short-body":
 				if rq.cl < 0 || rq.dataSent > rq.cl || (t == "short-body" && rq.dataSent >= rq.cl) {
 					continue
 				}
 			case "after-goaway":
-				if goneAway || len(h.reqs) < 3 {
+				// the client closes the connection once it is idle after a GOAWAY: late, and not in every session
+				if goneAway || !late || len(h.reqs) < 3 {
 					continue
 				}
 			}
 			cands = append(cands, t)
+		}
+		if len(cands) == 0 {
+			return ""
 		}
 		t := cands[rng.IntN(len(cands))]
 		if rng.IntN(3) != 0 && t != "beyond-content-length" && t != "short-body" {
@@ -757,6 +786,7 @@ func vrfC10ClientScript(h *vrfCli, rng *rand.Rand, d *vrfC10Desc) {
 	for step := 0; step < d.Steps && !h.dead; step++ {
 		clean, tainted, all := live()
 		what := ""
+		late = false
 		switch a := rng.IntN(100); {
 		case a < 12 || len(all) == 0:
 			rq := startReq()
@@ -863,6 +893,22 @@ func vrfC10ClientScript(h *vrfCli, rng *rand.Rand, d *vrfC10Desc) {
 			h.check(what)
 		}
 	}
+	// in a part of the sessions the server says GOAWAY before the wind-down, naming a last
+	// stream id below a request that is still in progress
+	if !h.dead && !goneAway && rng.IntN(5) == 0 {
+		late, force = true, "after-goaway"
+		clean, _, _ := live()
+		for i := len(clean) - 1; i >= 0; i-- {
+			rq := clean[i]
+			if done, err, _ := rq.roundTripState(); done && err == nil && rq.hdrSent && !rq.srvEnded {
+				if t := applyTaint(rq); t != "" {
+					h.check("start@" + t)
+				}
+				break
+			}
+		}
+		force = ""
+	}
 	for _, rq := range h.reqs {
 		if h.dead {
 			break
@@ -953,7 +999,7 @@ func TestVerif_C10(t *testing.T) {
 	r.Assume("'eventually returned' is decided at synctest quiescence after each action; credit for bytes buffered in a body the application can still read/close counts as held (white-box pipe length, cross-checked against sent−read at the application boundary for untouched streams); batched credit is inflow.unsent and must stay in [0,4096) (flow.go: inflowMinRefresh)")
 	r.Assume("the end condition is only evaluated on connections that are still up, once every handler/consumer has returned and the implementation knows no stream any more")
 
-	n := r.N(260, 4000)
+	n := r.N(200, 1200)
 	vsrvGoroutineTracking(false)
 	r.CasesParallel("server", n, 0, func(c *verifrt.Case) { vrfC10Server(r, c) })
 	// client sessions use synctest.Test on the calling goroutine through vsrvBubble as well
@@ -965,23 +1011,23 @@ func TestVerif_C10(t *testing.T) {
 		}
 		return quick
 	}
-	r.Require("server_conservation_checks", q(3000, 40000))
-	r.Require("client_conservation_checks", q(3000, 40000))
-	r.Require("server_final_checks", q(150, 2000))
-	r.Require("client_final_checks", q(150, 2000))
-	r.Require("server_checks_with_buffered_body_bytes", q(500, 5000))
-	r.Require("client_checks_with_buffered_body_bytes", q(500, 5000))
-	r.Require("server_checks_with_batched_credit", q(300, 3000))
-	r.Require("client_checks_with_batched_credit", q(300, 3000))
-	r.Require("server_conn_window_updates", q(500, 5000))
-	r.Require("client_conn_window_updates", q(300, 3000))
-	r.Require("server_padded_data_frames", q(300, 3000))
-	r.Require("client_padded_data_frames", q(300, 3000))
-	for _, p := range []string{"body-closed", "handler-returned", "handler-panicked", "client-rst", "beyond-content-length", "after-end-stream", "after-trailers", "short-body", "never-opened", "after-goaway"} {
-		r.Require("server_path_"+p, q(5, 50))
+	r.Require("server_conservation_checks", q(2500, 15000))
+	r.Require("client_conservation_checks", q(2500, 15000))
+	r.Require("server_final_checks", q(120, 700))
+	r.Require("client_final_checks", q(120, 700))
+	r.Require("server_checks_with_buffered_body_bytes", q(500, 3000))
+	r.Require("client_checks_with_buffered_body_bytes", q(500, 3000))
+	r.Require("server_checks_with_batched_credit", q(300, 2000))
+	r.Require("client_checks_with_batched_credit", q(300, 2000))
+	r.Require("server_conn_window_updates", q(500, 3000))
+	r.Require("client_conn_window_updates", q(300, 2000))
+	r.Require("server_padded_data_frames", q(300, 2000))
+	r.Require("client_padded_data_frames", q(300, 2000))
+	for _, p := range []string{"body-closed", "handler-returned", "handler-panicked", "client-rst", "beyond-content-length", "after-end-stream", "after-trailers", "short-body", "never-opened", "after-goaway", "stream-window-exceeded"} {
+		r.Require("server_path_"+p, q(5, 30))
 	}
 	for _, p := range []string{"body-closed", "ctx-cancel", "server-rst", "beyond-content-length", "after-end-stream", "after-trailers", "short-body", "after-goaway", "before-headers", "head-with-data", "cancel-racing-response", "finished-stream"} {
-		r.Require("client_path_"+p, q(5, 50))
+		r.Require("client_path_"+p, q(5, 30))
 	}
 	_ = http.ErrAbortHandler
 }
